@@ -399,7 +399,7 @@ pub fn run(ctx: &mut Ctx) {
         ),
     );
     // digest lane: lengths 0..=200, several contents each; split across shards by a hash of (len, rep)
-    let reps = ctx.tier_pick(24u64, 240);
+    let reps = ctx.tier_pick(24u64, 1000);
     let n_random = ctx.tier_pick(100u64, 400);
     for len in 0..=200u64 {
         for rep in 0..reps {
